@@ -10,6 +10,7 @@ import OptreeModel.Model.Ops
 import OptreeModel.Properties.C07
 import OptreeModel.Lemmas.UpToAlign
 import OptreeModel.Lemmas.UpToSelf
+import OptreeModel.Properties.C01
 
 namespace Optree
 
@@ -166,5 +167,149 @@ theorem C05_rest_aligned (cfg : Cfg) (hp : cfg.pred = Option.none) (t r : PyObj)
 theorem C05_self_rest (cfg : Cfg) (hp : cfg.pred = Option.none) (t : PyObj) (ht : t.wf = true)
     (ls : List PyObj) (sp : Spec) (h : flatten cfg t = .ok (ls, sp)) (hns : sp.ns = cfg.ns) :
     flattenUpTo cfg.reg sp t = .ok ls := flattenUpTo_self cfg hp t ht ls sp h hns
+
+
+/-! ### the mapped tree: structure of `t`, i-th leaf = i-th result -/
+
+theorem foldl_min_const (a : Nat) : ∀ (l : List Nat), (∀ x ∈ l, x = a) → l.foldl min a = a
+  | [], _ => rfl
+  | x :: l, h => by
+      have hx : x = a := h x (by simp)
+      subst hx
+      simp only [List.foldl_cons, Nat.min_self]
+      exact foldl_min_const x l (fun y hy => h y (by simp [hy]))
+
+/-- `zip(*lists)` of lists of one common length `n`: `n` columns, the i-th holding the i-th items -/
+theorem zipArgs_same_length (l0 : List PyObj) (ls : List (List PyObj)) (h : ∀ l ∈ ls, l.length = l0.length) :
+    zipArgs (l0 :: ls) = (List.range l0.length).map fun i => (l0 :: ls).map fun l => l[i]! := by
+  unfold zipArgs
+  have : ((l0 :: ls).map List.length).foldl min ((l0 :: ls).head!.length) = l0.length := by
+    have hh : (l0 :: ls).head! = l0 := rfl
+    simp only [List.map_cons, List.foldl_cons, hh, Nat.min_self]
+    exact foldl_min_const l0.length (ls.map List.length) (by
+      intro x hx
+      simp only [List.mem_map] at hx
+      obtain ⟨l, hl, rfl⟩ := hx
+      exact h l hl)
+  simp only [this]
+
+/-- **`tree_map(f, t, *rests)`**: when every rest is matched (`flatten_up_to` succeeds for each, one sub-tree per
+leaf) and `f` returns leaf-typed objects, the result is a tree that flattens to *exactly the results of the
+calls, in order, and the treespec of `t`* — the structure of `t` with the i-th leaf replaced by
+`f(leaf_i(t), sub_i(rest_1), …)` — and the call log is one argument tuple per leaf, in flatten order:
+the i-th tuple is `(leaf_i, subs_1[i], …, subs_k[i])`. -/
+theorem C05_map_result (cfg : Cfg) (hreg : cfg.reg.OK) (hst : PredOnLeaves cfg) (f : UserFn) (t : PyObj)
+    (rests : List PyObj) (ht : t.wf = true) (ls : List PyObj) (sp : Spec) (h : flatten cfg t = .ok (ls, sp))
+    (restLeaves : List (List PyObj)) (hrest : rests.mapM (flattenUpTo cfg.reg sp) = .ok restLeaves)
+    (hlen : ∀ l ∈ restLeaves, l.length = ls.length)
+    (rs : List PyObj)
+    (hcalls : (callAll f 0 ((List.range ls.length).map fun i => (ls :: restLeaves).map fun l => Arg.obj l[i]!) [] []).1
+      = .ok rs)
+    (hleafy : ∀ x ∈ rs, LeafObj cfg x) :
+    ∃ r, (treeMapGen cfg .plain false f t rests).result = .ok r ∧
+      (treeMapGen cfg .plain false f t rests).log =
+        ((List.range ls.length).map fun i => (ls :: restLeaves).map fun l => Arg.obj l[i]!) ∧
+      flatten cfg r = .ok (rs, sp) := by
+  have hcols := zipArgs_same_length ls restLeaves hlen
+  obtain ⟨hlog, hrl⟩ := C05_calls_in_order f _ rs hcalls
+  have hrl' : rs.length = ls.length := by simpa using hrl
+  obtain ⟨r, hu, hf⟩ := C01_replace_leaves cfg hreg hst t ht ls sp h rs hrl' hleafy
+  have hargs : (List.range (min (ls.map fun _ => ([] : List Arg)).length (zipArgs (ls :: restLeaves)).length)).map
+      (fun i => (ls.map fun _ => ([] : List Arg))[i]! ++ ((zipArgs (ls :: restLeaves))[i]!).map Arg.obj) =
+      (List.range ls.length).map fun i => (ls :: restLeaves).map fun l => Arg.obj l[i]! := by
+    rw [hcols]
+    simp only [List.length_map, List.length_range, Nat.min_self]
+    apply List.map_congr_left
+    intro i hi
+    have hi' : i < ls.length := by simpa using hi
+    simp [hi', List.map_map, Function.comp_def]
+  refine ⟨r, ?_, ?_, hf⟩
+  · unfold treeMapGen
+    simp only [h, hrest, hargs]
+    cases hc : callAll f 0 ((List.range ls.length).map fun i => (ls :: restLeaves).map fun l => Arg.obj l[i]!) [] [] with
+    | mk res log =>
+      rw [hc] at hcalls
+      simp only at hcalls
+      subst hcalls
+      simp [hu]
+  · unfold treeMapGen
+    simp only [h, hrest, hargs]
+    cases hc : callAll f 0 ((List.range ls.length).map fun i => (ls :: restLeaves).map fun l => Arg.obj l[i]!) [] [] with
+    | mk res log =>
+      rw [hc] at hcalls hlog
+      simp only at hcalls hlog
+      subst hcalls
+      simp [hlog]
+
+/-! ### pure leaf functions: identity and composition -/
+
+/-- a side-effect-free function of one leaf as a mapped function -/
+def pureFn (g : PyObj → PyObj) : UserFn :=
+  fun _ a => match a with
+    | [Arg.obj x] => .ok (g x)
+    | _ => .error .internal
+
+theorem callAll_pure (g : PyObj → PyObj) : ∀ (xs : List PyObj) (i : Nat) (acc : List PyObj) (log : List (List Arg)),
+    (callAll (pureFn g) i (xs.map fun x => [Arg.obj x]) acc log).1 = .ok (acc.reverse ++ xs.map g)
+  | [], _, _, _ => by simp [callAll]
+  | x :: xs, i, acc, log => by
+      have hx : pureFn g i [Arg.obj x] = .ok (g x) := rfl
+      simp only [List.map_cons, callAll, hx]
+      rw [callAll_pure g xs (i + 1) (g x :: acc) ([Arg.obj x] :: log)]
+      simp
+
+theorem args_single (ls : List PyObj) :
+    ((List.range ls.length).map fun i => [ls].map fun l => Arg.obj l[i]!) = ls.map fun x => [Arg.obj x] := by
+  apply List.ext_getElem
+  · simp
+  · intro i h1 h2
+    have hi : i < ls.length := by simpa using h1
+    simp [hi]
+
+/-- **`tree_map(g, t)` for a pure `g` is `unflatten(treespec(t), [g(x) for x in leaves(t)])`** -/
+theorem C05_map_pure (cfg : Cfg) (g : PyObj → PyObj) (t : PyObj) (ls : List PyObj) (sp : Spec)
+    (h : flatten cfg t = .ok (ls, sp)) :
+    (treeMapGen cfg .plain false (pureFn g) t []).result = unflatten sp (ls.map g) := by
+  have hcols := zipArgs_same_length ls [] (by simp)
+  have hargs : (List.range (min (ls.map fun _ => ([] : List Arg)).length (zipArgs [ls]).length)).map
+      (fun i => (ls.map fun _ => ([] : List Arg))[i]! ++ ((zipArgs [ls])[i]!).map Arg.obj) =
+      ls.map fun x => [Arg.obj x] := by
+    rw [← args_single, hcols]
+    simp only [List.length_map, List.length_range, Nat.min_self]
+    apply List.map_congr_left
+    intro i hi
+    have hi' : i < ls.length := by simpa using hi
+    simp [hi']
+  unfold treeMapGen
+  simp only [h, List.mapM_nil, pure, Except.pure, hargs]
+  have hc := callAll_pure g ls 0 [] []
+  cases hcc : callAll (pureFn g) 0 (ls.map fun x => [Arg.obj x]) [] [] with
+  | mk res log =>
+    rw [hcc] at hc
+    simp only at hc
+    subst hc
+    simp
+
+/-- **identity map**: `tree_map(lambda x: x, t)` rebuilds `t` (the model identifies a container with its contents:
+"a structurally identical copy built from the same leaf objects") -/
+theorem C05_map_identity (cfg : Cfg) (hreg : cfg.reg.OK) (t : PyObj) (ht : t.wf = true) (ls : List PyObj)
+    (sp : Spec) (h : flatten cfg t = .ok (ls, sp)) :
+    (treeMapGen cfg .plain false (pureFn id) t []).result = .ok t := by
+  rw [C05_map_pure cfg id t ls sp h]
+  simp [C01_roundtrip cfg hreg t ht ls sp h]
+
+/-- **`map(f ∘ g) = map(f) ∘ map(g)` for leaf-valued `g`**: mapping `g` first gives a tree of the same structure
+whose leaves are the `g x`; mapping `f` over it is mapping `f ∘ g` over `t` -/
+theorem C05_map_compose (cfg : Cfg) (hreg : cfg.reg.OK) (hst : PredOnLeaves cfg) (f g : PyObj → PyObj) (t : PyObj)
+    (ht : t.wf = true) (ls : List PyObj) (sp : Spec) (h : flatten cfg t = .ok (ls, sp))
+    (hg : ∀ x ∈ ls, LeafObj cfg (g x)) :
+    ∃ tg, (treeMapGen cfg .plain false (pureFn g) t []).result = .ok tg ∧
+      (treeMapGen cfg .plain false (pureFn f) tg []).result =
+        (treeMapGen cfg .plain false (pureFn (f ∘ g)) t []).result := by
+  obtain ⟨tg, hu, hf⟩ := C01_replace_leaves cfg hreg hst t ht ls sp h (ls.map g) (by simp)
+    (by intro x hx; simp only [List.mem_map] at hx; obtain ⟨y, hy, rfl⟩ := hx; exact hg y hy)
+  refine ⟨tg, by rw [C05_map_pure cfg g t ls sp h]; exact hu, ?_⟩
+  rw [C05_map_pure cfg f tg (ls.map g) sp hf, C05_map_pure cfg (f ∘ g) t ls sp h]
+  simp [List.map_map]
 
 end Optree
